@@ -597,12 +597,30 @@ def _to_c_expr(
             return "(" + f" {op_token} ".join(emit(v) for v in n.values) + ")"
 
         if isinstance(n, ast.Compare):
+            op_tokens = [_CMP.get(type(op_node)) for op_node in n.ops]
+            if any(token is None for token in op_tokens):
+                raise ValueError("unsupported")
+            shared = n.comparators[:-1]
+            if any(
+                not isinstance(operand, (ast.Name, ast.Constant)) for operand in shared
+            ):
+                # ``a < f() < c`` evaluates f() once (and ``c`` only when ``a < f()``
+                # holds); repeating the operand's text would call it twice and
+                # doubles the text for every level of nesting.
+                steps = [f"auto __redu_c0 = {emit(n.left)};"]
+                for index, (token, comparator) in enumerate(
+                    zip(op_tokens, n.comparators), start=1
+                ):
+                    steps.append(f"auto __redu_c{index} = {emit(comparator)};")
+                    test = f"__redu_c{index - 1} {token} __redu_c{index}"
+                    if index < len(op_tokens):
+                        steps.append(f"if (!({test})) {{ return false; }}")
+                    else:
+                        steps.append(f"return {test};")
+                return "([&]() -> bool { " + " ".join(steps) + " }())"
             parts = []
             left = emit(n.left)
-            for op_node, comparator in zip(n.ops, n.comparators):
-                op_token = _CMP.get(type(op_node))
-                if op_token is None:
-                    raise ValueError("unsupported")
+            for op_token, comparator in zip(op_tokens, n.comparators):
                 right = emit(comparator)
                 parts.append(f"{left} {op_token} {right}")
                 left = right
